@@ -201,6 +201,7 @@ pub fn check(scn: &C10Scenario, stats: &mut RunStats) -> Result<Vec<Violation>, 
         let violations = match scn.layer {
             Layer::L1 => run_l1(&scn, &mut stats),
             Layer::L2 => crate::l2::run_l2(&scn, &mut stats),
+            Layer::LW => crate::lw::run_lw(&scn, &mut stats),
         };
         for (k, v) in exec::take_probes() {
             *stats.probes.entry(k.to_owned()).or_insert(0) += v;
@@ -1116,15 +1117,35 @@ impl Property for C10 {
         let avoid = AVOID.get_or_init(avoid_list);
         // most runs steer clear of the triggers of open known findings so that one open
         // finding does not mask the rest of the space; every 8th run does not
+        // layer LW (real --watch binary, real time): thorough tier only, 48 histories
+        let real_watch = tier == "thorough"
+            && crate::tierb::available()
+            && index >= c10gen::enum_count(3)
+            && index < c10gen::enum_count(3) + 48 * 7
+            && (index - c10gen::enum_count(3)) % 7 == 0;
         let knobs = c10gen::Knobs {
             // the work-item graph is only reachable through a harness-supplied rule and
             // every use of it currently ends in a non-terminating work loop (known
             // finding D13), so this dimension is opt-in: VERIF_GRAPH=1
             include_graph: index % 10 == 4 && std::env::var_os("VERIF_GRAPH").is_some(),
-            layer: if index % 4 == 3 { Layer::L2 } else { Layer::L1 },
+            layer: if real_watch {
+                Layer::LW
+            } else if index % 4 == 3 {
+                Layer::L2
+            } else {
+                Layer::L1
+            },
             max_ops: 12,
             allow_faults: true,
-            avoid: if index % 8 == 7 { Vec::new() } else { avoid.clone() },
+            avoid: if real_watch {
+                let mut list = avoid.clone();
+                list.push("top-level-filter-change".to_owned());
+                list
+            } else if index % 8 == 7 {
+                Vec::new()
+            } else {
+                avoid.clone()
+            },
         };
         // the first indices of every batch are the exhaustive short-history stratum
         let enum_len = if tier == "thorough" { 3 } else { 2 };
@@ -1231,6 +1252,13 @@ impl Property for C10 {
             "real": ["WorkerTree (collect_work, process, source_changed, add_source, remove_source, clean_files, configuration hash)", "Worker", "WorkCache", "Configuration (json5)", "all rules", "bundler", "path locators", "parser", "3 generators", "Source::Memory arm (1/6 of L1 runs)"],
             "stub": ["Source::FileSystem arm (std::fs) -> SimFs via hook H1", "L1: FileWatcher::process_events replaced by the protocol table of DESIGN.md 4.2"],
         })
+    }
+    fn shrink_budget(&self, scenario: &Scenario, default: usize) -> usize {
+        match scenario {
+            // every re-execution of a real-watch history takes tens of seconds
+            Scenario::C10(scn) if scn.layer == Layer::LW => 6,
+            _ => default,
+        }
     }
     fn extra_evidence(&self) -> serde_json::Value {
         let path = crate::driver::verif_dir().join("calibration.json");
